@@ -124,6 +124,14 @@ func configure(g *gen) {
 				Value: "%t.1", T: tStrList},
 			{Callee: "$.stableRoutes[]", Value: "(env.stable s %1)", T: T{"opaque", "Option ρ"}},
 		}})
+	// parse_match.go `Match`: QuickMatch on the upper-cased method (the state threading of QuickMatch is passed on)
+	add(FnSpec{Recv: "Router", Func: "Match", Lean: "Router.Match",
+		Extra:    []string{"{σ ρ π : Type}", "(env : GoRt.QMEnv σ ρ π)", "(s0 : σ)"},
+		Prologue: []string{"let mut s := s0"}, RetExtra: []string{"s"}, RetExtraT: []string{"σ"},
+		Exts: []Ext{
+			{Callee: "$.QuickMatch", Stmts: []string{"let %t ← Gen.Router.QuickMatch $ %1 %2 env s", "s := %t.1"},
+				Values: []string{"%t.2.1", "%t.2.2.1", "%t.2.2.2"}, Ts: []T{{"opaque", "Option ρ"}, {"opaque", "Option π"}, tStrList}, MayPanic: true},
+		}})
 	// parse_match.go / utils.go / route.go: pattern compilation.  `parseParamRoute` rewrites the route path step by step
 	// into the source text of the route's regexp.  Parameters: `findAll` (varRegex.FindAllString), `replacer`
 	// (strings.NewReplacer(olds/news...).Replace), `gv` (the package-level map globalVars as it stands),
